@@ -132,6 +132,9 @@ func parseIndexString(s string, n int) (slice bool, i int, j int, err error) {
 			// TODO: Handle j == MaxInt-1
 			if j == -1 { // subtle corner case that is same as no high value
 				j = n
+			} else if j < -n {
+				// $li[$j] does not exist, so the slice cannot include it.
+				return false, 0, 0, negIndexOutOfRange(high, n)
 			} else {
 				j++
 			}
